@@ -582,6 +582,10 @@ class Retrieve:
 
         # Remove the reader from _active_readers
         self._active_readers.remove(reader)
+        # whatever block hashes this share gave us were never validated
+        # against the signed root: do not hold them against another copy of
+        # the same share number
+        self._block_hash_trees[shnum] = hashtree.IncompleteHashTree(self._num_segments)
         if f.check(BadShareError):
             # only this share is known to be bad: other shares held by the
             # same server may still be good
